@@ -405,6 +405,7 @@ Proof.
     apply andb_true_iff in Hv. destruct Hv as [_ Hv].
     cbn [logical]. now rewrite (map_logical_id t' l IH Hk Hv).
   - cbn [key_ok] in Hk. apply andb_true_iff in Hk. destruct Hk as [Hsk Hk].
+    apply andb_true_iff in Hsk. destruct Hsk as [_ Hsk].
     destruct v as [x|l|i x]; try discriminate. cbn [has_ty] in Hv.
     cbn [logical]. f_equal.
     apply (map_fields_id ts IH Hk); [exact Hsk|apply prod_skips_length|exact Hv].
